@@ -70,6 +70,7 @@ fn order_spec(c: &mut Cur, zeros: bool) -> OrderSpec {
         lastref: 99,
         offset: if flags & 0x40 != 0 { i64::MIN } else { -5 },
         peg: flags >> 4,
+        own_price: None,
     }
 }
 
